@@ -1902,7 +1902,8 @@ async def c06_next_witness(w):
                     ("period(2024/03/01 00:00, 7 min)", dtm.datetime(2024, 3, 13, 0, 30), dtm.datetime(2024, 3, 1, 7, 0), dtm.datetime(2024, 3, 13, 0, 31))],
         "not-after-now": [("once(8:00)", dtm.datetime(2024, 3, 13, 8, 0, 0), dtm.datetime(2024, 3, 1, 7, 0), dtm.datetime(2024, 3, 14, 8, 0)),
                           ("period(2024/03/13 08:00, 1h)", dtm.datetime(2024, 3, 13, 9, 0, 0), dtm.datetime(2024, 3, 1, 7, 0), dtm.datetime(2024, 3, 13, 10, 0))],
-        "none-for-period": [("period(2024/03/01 00:00, 7 min)", dtm.datetime(2024, 3, 13, 0, 30), dtm.datetime(2024, 3, 1, 7, 0), dtm.datetime(2024, 3, 13, 0, 31))],
+        "none-for-period": [("period(2024/03/13 08:00, 1h)", dtm.datetime(2024, 3, 13, 9, 0, 0), dtm.datetime(2024, 3, 1, 7, 0), dtm.datetime(2024, 3, 13, 10, 0)),
+                            ("period(2024/03/01 00:00, 7 min)", dtm.datetime(2024, 3, 13, 0, 30), dtm.datetime(2024, 3, 1, 7, 0), dtm.datetime(2024, 3, 13, 0, 31))],
     }
     todo = cases.get(w.get("what")) or [c for v in cases.values() for c in v]
     bad = []
